@@ -110,6 +110,48 @@ func (p *Package) Universe() *refwire.Universe {
 	return p.uni
 }
 
+// Reachable returns the named types of the package reachable from the types
+// declared in the analysed file (through fields, elements, keys and union
+// members): the types the generators produce code for.
+func (p *Package) Reachable() map[reflect.Type]bool {
+	u := p.Universe()
+	seen := map[reflect.Type]bool{}
+	var visit func(t reflect.Type)
+	visit = func(t reflect.Type) {
+		if seen[t] {
+			return
+		}
+		seen[t] = true
+		switch t.Kind() {
+		case reflect.Struct:
+			if refwire.IsTimeLike(t) {
+				return
+			}
+			for i := 0; i < t.NumField(); i++ {
+				if t.Field(i).Tag.Get("gomacro") == "ignore" {
+					continue
+				}
+				visit(t.Field(i).Type)
+			}
+		case reflect.Slice, reflect.Array, reflect.Pointer:
+			visit(t.Elem())
+		case reflect.Map:
+			visit(t.Key())
+			visit(t.Elem())
+		case reflect.Interface:
+			for _, m := range u.Unions[t] {
+				visit(m)
+			}
+		}
+	}
+	for _, n := range p.SourceTypes {
+		if t := p.byName[n]; t != nil {
+			visit(t)
+		}
+	}
+	return seen
+}
+
 // ---------------------------------------------------------------------------
 // protocol
 
